@@ -1147,11 +1147,150 @@ RECV_FLOW_METHODS = ["_go", "_parse_offer"]
 RECV_FLOW_KEEP = re.compile(r"^(self\.|os\.|shutil\.|tempfile\.|\w*Error$)")
 
 
+_RECV_MUTATORS = {"append", "extend", "insert", "add", "update", "setdefault", "pop", "popitem", "remove", "discard", "clear",
+                  "popleft", "appendleft", "extendleft", "sort", "reverse", "rotate",
+                  "__setattr__", "__setitem__", "__delattr__", "__delitem__"}
+
+
+def recv_outlives(cmd_receive):
+    """Where the receive path of cli/cmd_receive.py stores something that OUTLIVES one `receive(args)` call (every
+    `receive()` builds a new Receiver, so instance attributes do not): writes into the shared `args`/Config object
+    (`self.args.x = …`, through a local alias, `setattr`, `vars()`, `__dict__`), `global` declarations, writes to
+    attributes of the class (`Receiver.x`, `type(self).x`, `self.__class__.x`), data attributes in the class body,
+    mutable default arguments, and writes into module-level containers.  Syntactic (no escape analysis): list of
+    `(function, what)`, empty on a tree where one receive cannot influence the next through the program's own state."""
+    src = inspect.getsource(cmd_receive)
+    tree = ast.parse(src)
+    module_names = set()
+    for n in tree.body:
+        if isinstance(n, (ast.Assign, ast.AnnAssign, ast.AugAssign)):
+            for t in (n.targets if isinstance(n, ast.Assign) else [n.target]):
+                for x in ast.walk(t):
+                    if isinstance(x, ast.Name):
+                        module_names.add(x.id)
+    out = []
+
+    def is_self_args(e):
+        return isinstance(e, ast.Attribute) and e.attr == "args" and isinstance(e.value, ast.Name) and e.value.id == "self"
+
+    def is_class_ref(e):
+        if isinstance(e, ast.Name) and e.id in ("Receiver", "cls"):
+            return True
+        if isinstance(e, ast.Attribute) and e.attr == "__class__":
+            return True
+        return isinstance(e, ast.Call) and isinstance(e.func, ast.Name) and e.func.id == "type"
+
+    def scan(fn, where, args_param):
+        aliases = set([args_param] if args_param else [])
+        local = set(a.arg for a in fn.args.args + fn.args.kwonlyargs + fn.args.posonlyargs)
+        for node in ast.walk(fn):
+            if isinstance(node, ast.Assign) and (is_self_args(node.value) or (isinstance(node.value, ast.Name) and node.value.id in aliases)):
+                for t in node.targets:
+                    if isinstance(t, ast.Name):
+                        aliases.add(t.id)
+            if isinstance(node, (ast.Assign, ast.AnnAssign, ast.AugAssign, ast.For, ast.NamedExpr)):
+                for t in (node.targets if isinstance(node, ast.Assign) else [node.target]):
+                    for x in ast.walk(t):
+                        if isinstance(x, ast.Name) and isinstance(x.ctx, ast.Store):
+                            local.add(x.id)
+
+        def is_args(e):
+            return is_self_args(e) or (isinstance(e, ast.Name) and e.id in aliases)
+
+        def root_of(e):
+            """('args'|'class'|'module'|None, spelled path) of an attribute/subscript chain that is written to"""
+            path = []
+            while isinstance(e, (ast.Attribute, ast.Subscript)):
+                if is_args(e) or is_class_ref(e):
+                    break
+                path.append(e.attr if isinstance(e, ast.Attribute) else "[]")
+                e = e.value
+            spelled = ".".join(reversed(path))
+            if is_args(e):
+                # the output channels and the timing recorder hang off the same object; they are not options
+                if not path or path[-1] in ("timing", "stdout", "stderr"):
+                    return None, spelled
+                return "args", spelled
+            if is_class_ref(e) and path:
+                return "class", spelled
+            if isinstance(e, ast.Name) and e.id in module_names and e.id not in local and path:
+                return "module", e.id + "." + spelled
+            return None, spelled
+
+        def target(t, how):
+            if isinstance(t, (ast.Tuple, ast.List)):
+                for x in t.elts:
+                    target(x, how)
+            elif isinstance(t, ast.Starred):
+                target(t.value, how)
+            elif isinstance(t, (ast.Attribute, ast.Subscript)):
+                kind, spelled = root_of(t)
+                if kind == "args":
+                    out.append((where, "%s args.%s" % (how, spelled)))
+                elif kind == "class":
+                    out.append((where, "%s class attribute %s" % (how, spelled)))
+                elif kind == "module":
+                    out.append((where, "%s module-level %s" % (how, spelled)))
+
+        for node in ast.walk(fn):
+            if isinstance(node, ast.Assign):
+                for t in node.targets:
+                    target(t, "assign")
+            elif isinstance(node, (ast.AugAssign, ast.AnnAssign)):
+                target(node.target, "assign")
+            elif isinstance(node, ast.Delete):
+                for t in node.targets:
+                    target(t, "del")
+            elif isinstance(node, (ast.For, ast.AsyncFor)):
+                target(node.target, "assign")
+            elif isinstance(node, (ast.With, ast.AsyncWith)):
+                for it in node.items:
+                    if it.optional_vars is not None:
+                        target(it.optional_vars, "assign")
+            elif isinstance(node, ast.Global):
+                out.append((where, "global " + ",".join(node.names)))
+            elif isinstance(node, ast.Call):
+                f = node.func
+                if isinstance(f, ast.Name) and f.id in ("setattr", "delattr", "vars") and node.args and is_args(node.args[0]):
+                    out.append((where, "%s(args)" % f.id))
+                elif isinstance(f, ast.Name) and f.id in ("setattr", "delattr") and node.args and is_class_ref(node.args[0]):
+                    out.append((where, "%s(class)" % f.id))
+                elif isinstance(f, ast.Attribute) and f.attr in _RECV_MUTATORS:
+                    kind, spelled = root_of(ast.Attribute(value=f.value, attr=f.attr, ctx=ast.Load()))
+                    if kind in ("args", "class", "module"):
+                        out.append((where, "call %s %s" % (kind, spelled)))
+            elif isinstance(node, ast.Attribute) and node.attr == "__dict__" and (is_args(node.value) or is_class_ref(node.value)):
+                out.append((where, "__dict__ of " + ("args" if is_args(node.value) else "class")))
+            if isinstance(node, (ast.FunctionDef, ast.AsyncFunctionDef, ast.Lambda)):
+                for dflt in list(node.args.defaults) + [d for d in node.args.kw_defaults if d is not None]:
+                    if isinstance(dflt, (ast.Dict, ast.List, ast.Set, ast.ListComp, ast.DictComp, ast.SetComp, ast.Call)):
+                        out.append((where, "mutable default argument " + ast.unparse(dflt)[:40]))
+
+    for n in tree.body:
+        if isinstance(n, (ast.FunctionDef, ast.AsyncFunctionDef)) and n.name == "receive":
+            scan(n, "receive", n.args.args[0].arg if n.args.args else None)
+        elif isinstance(n, ast.ClassDef) and n.name == "Receiver":
+            for m in n.body:
+                if isinstance(m, (ast.FunctionDef, ast.AsyncFunctionDef)):
+                    scan(m, m.name, None)
+                elif isinstance(m, ast.Pass) or (isinstance(m, ast.Expr) and isinstance(m.value, ast.Constant)):
+                    pass
+                else:
+                    out.append(("Receiver", "class body: " + ast.unparse(m).splitlines()[0][:60]))
+    seen, uniq = set(), []
+    for x in out:
+        if x not in seen:
+            seen.add(x)
+            uniq.append(x)
+    return uniq
+
+
 def extract_recv():
     """tmp-file suffix of Receiver._handle_file and the ordered (guard, callee) lists of the
     path-handling methods of cmd_receive.Receiver (nothing filtered but printing/formatting)."""
     from wormhole.cli import cmd_receive
     R = cmd_receive.Receiver
+    outlives = recv_outlives(cmd_receive)
     tree = ast.parse(textwrap.dedent(inspect.getsource(R._handle_file)))
     suffix = None
     for node in ast.walk(tree):
@@ -1205,6 +1344,11 @@ def extract_recv():
         L.append(f"  | {lean_str(k)} => [{items}]")
     L.append("  | _ => []")
     L.append("def methods : List String := [" + ", ".join(lean_str(k) for k in sorted(calls)) + "]")
+    L.append("/-- `(function, what)`: every place where `receive()` / a method of `Receiver` stores something that outlives one")
+    L.append("    `receive(args)` call — a write into the shared `args` object, a `global`, a class attribute, a mutable default,")
+    L.append("    a module-level container (syntactic; `args.timing/stdout/stderr` are output channels, not options) -/")
+    L.append("def outlives_receive : List (String × String) := [" + ", ".join(
+        "(%s, %s)" % (lean_str(w), lean_str(x)) for w, x in outlives) + "]")
     L.append("end WV.Gen.Recv")
     return "\n".join(L) + "\n"
 
@@ -1307,8 +1451,158 @@ def lean_hint_guards(data):
     for k, items in data:
         rows.append("  (%s, [\n    %s])" % (lean_str(k), ",\n    ".join(lean_str(i) for i in items)))
     L.append(",\n".join(rows) + "]")
+    L += lean_status_hints(extract_status_hints())
     L.append("end WV.Gen.HintGuards")
     return "\n".join(L) + "\n"
+
+
+# C20: the status-reporting side channel of hint handling (`DilationStatus.hints`, `Manager._latest_status`)
+
+STATUS_HINT_FILES = ["wormhole._status", "wormhole._dilation.manager", "wormhole._dilation.connector"]
+STATUS_SKELETONS = [("wormhole._dilation.manager", "Manager", "_hint_status"),
+                    ("wormhole._dilation.manager", "Manager", "_maybe_send_status")]
+_SET_METHODS = ("union", "intersection", "difference", "symmetric_difference", "copy")
+
+
+def _set_typed(e):
+    """syntactic judgement "this expression evaluates to a `set`": `set(...)`/`frozenset(...)`, a set display or
+    comprehension, a set method of such an expression, `|`/`&`/`-`/`^` with such a left operand, `Factory(set)`"""
+    if isinstance(e, (ast.Set, ast.SetComp)):
+        return True
+    if isinstance(e, ast.Call):
+        f = e.func
+        if isinstance(f, ast.Name) and f.id in ("set", "frozenset"):
+            return True
+        if isinstance(f, ast.Name) and f.id == "Factory" and len(e.args) == 1 and isinstance(e.args[0], ast.Name) \
+                and e.args[0].id in ("set", "frozenset") and not e.keywords:
+            return True
+        if isinstance(f, ast.Attribute) and f.attr in _SET_METHODS:
+            return _set_typed(f.value)
+    if isinstance(e, ast.BinOp) and isinstance(e.op, (ast.BitOr, ast.BitAnd, ast.Sub, ast.BitXor)):
+        return _set_typed(e.left)
+    return False
+
+
+def _qualified_functions(tree):
+    """(qualified name, FunctionDef) of every function in a module, methods as `Class.name`"""
+    out = []
+
+    def walk(body, prefix):
+        for n in body:
+            if isinstance(n, (ast.FunctionDef, ast.AsyncFunctionDef)):
+                out.append((prefix + n.name, n))
+                walk(n.body, prefix + n.name + ".")
+            elif isinstance(n, ast.ClassDef):
+                walk(n.body, prefix + n.name + ".")
+    walk(tree.body, "")
+    return out
+
+
+def _own_nodes(fn):
+    """nodes of a function body that do not belong to a nested function / class"""
+    todo = list(fn.body)
+    while todo:
+        n = todo.pop(0)
+        yield n
+        for c in ast.iter_child_nodes(n):
+            if not isinstance(c, (ast.FunctionDef, ast.AsyncFunctionDef, ast.ClassDef)):
+                todo.append(c)
+
+
+def extract_status_hints():
+    sites = []          # (where, expression given as `hints=`, set-typed?)
+    assigns = []        # (where, right-hand side) of every assignment to `<x>._latest_status`
+    callers = []        # (where, call) of every `<x>._hint_status(...)` call
+    mentions = []       # statements of Connector._use_hints that mention `hint_status`, in source order
+    for module in STATUS_HINT_FILES:
+        mod = importlib.import_module(module)
+        short = module.split(".")[-1]
+        tree = ast.parse(inspect.getsource(mod))
+        for n in ast.walk(tree):
+            if isinstance(n, ast.ClassDef) and n.name == "DilationStatus":
+                for st in n.body:
+                    if isinstance(st, ast.AnnAssign) and isinstance(st.target, ast.Name) and st.target.id == "hints":
+                        sites.append((short + ".DilationStatus.hints (default)", ast.unparse(st.value) if st.value is not None else "",
+                                      st.value is not None and _set_typed(st.value)))
+        for qn, fn in _qualified_functions(tree):
+            for n in sorted((x for x in _own_nodes(fn) if hasattr(x, "lineno")), key=lambda x: (x.lineno, x.col_offset)):
+                if isinstance(n, ast.Call):
+                    f = n.func
+                    fname = f.id if isinstance(f, ast.Name) else f.attr if isinstance(f, ast.Attribute) else ""
+                    if fname in ("evolve", "DilationStatus"):
+                        for kw in n.keywords:
+                            if kw.arg == "hints":
+                                sites.append((short + "." + qn, ast.unparse(kw.value), _set_typed(kw.value)))
+                            elif kw.arg is None:
+                                sites.append((short + "." + qn, "**" + ast.unparse(kw.value), False))
+                        if fname == "DilationStatus" and len(n.args) > 3:
+                            sites.append((short + "." + qn, ast.unparse(n.args[3]), _set_typed(n.args[3])))
+                    if fname == "_hint_status":
+                        callers.append((short + "." + qn, ast.unparse(n)))
+                if isinstance(n, (ast.Assign, ast.AnnAssign, ast.AugAssign)):
+                    targets = n.targets if isinstance(n, ast.Assign) else [n.target]
+                    flat = []
+                    for t in targets:
+                        flat += list(t.elts) if isinstance(t, (ast.Tuple, ast.List)) else [t]
+                    for t in flat:
+                        if isinstance(t, ast.Attribute) and t.attr == "_latest_status":
+                            assigns.append((short + "." + qn, ast.unparse(n.value) if n.value is not None else ""))
+                if isinstance(n, ast.Call) and isinstance(n.func, ast.Name) and n.func.id == "setattr" and len(n.args) >= 2 \
+                        and isinstance(n.args[1], ast.Constant) and n.args[1].value == "_latest_status":
+                    assigns.append((short + "." + qn, ast.unparse(n)))
+            if short == "connector" and qn == "Connector._use_hints":
+                for n in sorted((x for x in _own_nodes(fn) if isinstance(x, ast.stmt)), key=lambda x: (x.lineno, x.col_offset)):
+                    if isinstance(n, (ast.Expr, ast.Assign, ast.AugAssign, ast.AnnAssign, ast.Return, ast.Delete)) and \
+                            any(isinstance(x, ast.Name) and x.id == "hint_status" for x in ast.walk(n)):
+                        mentions.append(ast.unparse(n))
+    skel = []
+    for module, cls, name in STATUS_SKELETONS:
+        f = vars(getattr(importlib.import_module(module), cls))[name]
+        f = getattr(f, "__wrapped__", f)
+        fn = ast.parse(textwrap.dedent(inspect.getsource(f))).body[0]
+        rows = []
+
+        def walk(body, depth):
+            for st in body:
+                if isinstance(st, ast.Expr) and isinstance(st.value, ast.Constant) and isinstance(st.value.value, str):
+                    continue        # docstring
+                pre = "  " * depth
+                if isinstance(st, ast.If):
+                    rows.append(pre + "if " + ast.unparse(st.test))
+                    walk(st.body, depth + 1)
+                    if st.orelse:
+                        rows.append(pre + "else")
+                        walk(st.orelse, depth + 1)
+                elif isinstance(st, (ast.For, ast.While, ast.With, ast.Try)):
+                    rows.append(pre + type(st).__name__.lower() + " " + ast.unparse(st).splitlines()[0])
+                    for part in ("body", "handlers", "orelse", "finalbody"):
+                        for sub in getattr(st, part, []):
+                            walk(sub.body if isinstance(sub, ast.ExceptHandler) else [sub], depth + 1)
+                else:
+                    rows.append(pre + " ".join(ast.unparse(st).split()))
+        walk(fn.body, 0)
+        skel.append((cls + "." + name + "(" + ", ".join(a.arg for a in fn.args.args) + ")", rows))
+    return dict(sites=sites, assigns=assigns, callers=callers, mentions=mentions, skel=skel)
+
+
+def lean_status_hints(d):
+    L = ["/-- every expression that becomes `DilationStatus.hints` (keyword `hints=` of an `evolve(...)`/`DilationStatus(...)` call, the",
+         "    field's declared default) in _status.py, _dilation/manager.py, _dilation/connector.py: (where, expression, is it",
+         "    syntactically a `set`: `set(...)`, a set display/comprehension, a set method or operator of such an expression) -/",
+         "def statusHintSites : List (String × String × Bool) := [" +
+         ", ".join("(%s, %s, %s)" % (lean_str(w), lean_str(e), "true" if t else "false") for w, e, t in d["sites"]) + "]",
+         "/-- every assignment to an attribute `_latest_status`: (where, right-hand side) -/",
+         "def latestStatusAssignments : List (String × String) := [" +
+         ", ".join("(%s, %s)" % (lean_str(w), lean_str(e)) for w, e in d["assigns"]) + "]",
+         "/-- every call of `_hint_status`: (where, call) -/",
+         "def hintStatusCallers : List (String × String) := [" +
+         ", ".join("(%s, %s)" % (lean_str(w), lean_str(e)) for w, e in d["callers"]) + "]",
+         "/-- the statements of `Connector._use_hints` that mention `hint_status`, in source order -/",
+         "def useHintsStatusStatements : List String := [" + ", ".join(lean_str(x) for x in d["mentions"]) + "]",
+         "/-- statement skeletons (docstrings dropped, nesting as indentation) of the status helpers -/",
+         "def statusSkeleton : List (String × List String) := [" +
+         ", ".join("(%s, [%s])" % (lean_str(k), ", ".join(lean_str(r) for r in rows)) for k, rows in d["skel"]) + "]"]
+    return L
 
 
 # ---------------------------------------------------------------------------
@@ -1481,6 +1775,30 @@ def extract_transit():
                           for b in n.body for r in ast.walk(b))
                   for n in ast.walk(ast.parse(src)))
     L.append(f"def connection_ready_checks_winner : Bool := {'true' if guarded else 'false'}")
+    # HOW is `self._winner` tested there?  `if self._winner:` asks for the TRUTH VALUE of a Connection, which is
+    # "is not None" only as long as no class in Connection's MRO defines `__bool__` or `__len__` (a Connection with
+    # a `__len__` that counts queued records is falsy while its queue is empty: the Sender forgets its winner).
+    tests = [n.test for n in ast.walk(ast.parse(src)) if isinstance(n, (ast.If, ast.IfExp, ast.While)) and "_winner" in ast.dump(n.test)]
+
+    def _winner_test_kind(t):
+        if isinstance(t, ast.Attribute) and ast.unparse(t) == "self._winner":
+            return "truth"
+        if (isinstance(t, ast.Compare) and ast.unparse(t.left) == "self._winner" and len(t.ops) == 1
+                and isinstance(t.ops[0], ast.IsNot) and isinstance(t.comparators[0], ast.Constant)
+                and t.comparators[0].value is None):
+            return "is-not-none"
+        return "other"
+    kinds_ = sorted({_winner_test_kind(t) for t in tests})
+    kind = kinds_[0] if len(kinds_) == 1 else ("none" if not kinds_ else "mixed")
+    hooks = sorted({f"{k.__name__}.{a}" for k in tr.Connection.__mro__ if k is not object
+                    for a in ("__bool__", "__len__") if a in vars(k)})
+    L.append("/-- how `connection_ready` tests `self._winner`: `truth` (`if self._winner:`), `is-not-none`, … -/")
+    L.append(f"def connection_ready_winner_test : String := {lean_str(kind)}")
+    L.append("/-- `__bool__` / `__len__` definitions in the MRO of `Connection` (they decide the truth value of a winner) -/")
+    L.append("def connection_truth_hooks : List String := [" + ", ".join(lean_str(h) for h in hooks) + "]")
+    L.append("/-- the test of `self._winner` means \"a winner has been chosen\" -/")
+    means = kind == "is-not-none" or (kind == "truth" and not hooks)
+    L.append(f"def winner_test_means_is_set : Bool := {'true' if means else 'false'}")
     # how Common._get_direct_hints ties the listening port's stopListening() to `self._listener_d`:
     # nested functions that call <port>.stopListening(), and the add* call that attaches them
     src = textwrap.dedent(inspect.getsource(tr.Common._get_direct_hints))
@@ -1739,14 +2057,21 @@ PYIR_TARGETS = [
     ("wormhole._order", "Order", ["got_message"]),
     ("wormhole._send", "Send", []),
     ("wormhole._receive", "Receive", ["got_message"]),
-    ("wormhole._boss", "Boss", ["got_message"]),
-    ("wormhole._nameplate", "Nameplate", []),
+    ("wormhole._boss", "Boss", ["got_message", "set_code", "allocate_code", "input_code", "rx_welcome", "start"]),
     ("wormhole._terminator", "Terminator", []),
     ("wormhole._allocator", "Allocator", []),
     ("wormhole._lister", "Lister", []),
-    ("wormhole._code", "Code", []),
     ("wormhole._key", "Key", []),
-    ("wormhole._key", "_SortedKey", []),
+    ("wormhole._key", "_SortedKey", ["got_pake"]),
+    ("wormhole._input", "Input", []),
+    ("wormhole._nameplate", "Nameplate", ["set_nameplate"]),
+    ("wormhole._code", "Code", ["set_code"]),
+    ("wormhole._rendezvous", "RendezvousConnector",
+     ["tx_claim", "tx_open", "tx_add", "tx_release", "tx_close", "tx_list", "tx_allocate", "stop", "_stopped",
+      "ws_open", "ws_close", "_initial_connection_failed", "_tx",
+      "_response_handle_allocated", "_response_handle_nameplates", "_response_handle_ack", "_response_handle_error",
+      "_response_handle_welcome", "_response_handle_claimed", "_response_handle_message",
+      "_response_handle_released", "_response_handle_closed"]),
 ]
 
 _PYIR_ISINSTANCE = {"str", "bytes", "int", "bool", "dict", "tuple", "list", "set"}
@@ -1766,6 +2091,18 @@ def _pyir_src(node):
 
 def _lean_opt_str(x):
     return "none" if x is None else "(some %s)" % lean_str(x)
+
+
+def _pyir_kw(n):
+    """keyword arguments of a call: (suffix for the callee name, value nodes in source order)"""
+    if not n.keywords:
+        return "", []
+    if any(k.arg is None for k in n.keywords):
+        raise _Untranslatable("**kwargs in a call: " + _pyir_src(n))
+    return "[" + ",".join(k.arg for k in n.keywords) + "]", [k.value for k in n.keywords]
+
+
+_PYIR_STR_METHODS = {"split", "startswith"}
 
 
 class _PyIR:
@@ -1820,6 +2157,8 @@ class _PyIR:
         if isinstance(n, ast.Name):
             if n.id in self.locals:
                 return "(.var %s)" % lean_str(n.id)
+            if n.id == "self":
+                return "(.construct \"self\" [])"      # the instance itself, only ever passed on
             raise _Untranslatable("global name used as a value: " + n.id)
         if self.is_self_attr(n):
             return "(.attr %s)" % lean_str(n.attr)
@@ -1854,6 +2193,9 @@ class _PyIR:
             return "(.tuple %s)" % self.exprs(n.elts)
         if isinstance(n, ast.Dict) and not n.keys:
             return ".emptyDict"
+        if isinstance(n, ast.Dict) and all(isinstance(k, ast.Constant) and isinstance(k.value, str) for k in n.keys):
+            # {"k1": e1, …}: an external (pure) constructor named after its keys
+            return "(.call %s %s)" % (lean_str("{" + ",".join(k.value for k in n.keys) + "}"), self.exprs(n.values))
         if isinstance(n, ast.List) and not n.elts:
             return ".emptyList"
         if isinstance(n, ast.JoinedStr):
@@ -1872,7 +2214,15 @@ class _PyIR:
         raise _Untranslatable(type(n).__name__ + ": " + _pyir_src(n))
 
     def call_expr(self, n):
-        if n.keywords:
+        kwsfx, kwvals = _pyir_kw(n)
+        if kwsfx:
+            f = n.func
+            # only external functions / constructors take keyword arguments in expression position
+            if isinstance(f, ast.Name) and f.id not in self.locals and f.id not in ("len", "isinstance", "set", "dict", "list"):
+                obj = getattr(self.module, f.id, None)
+                if inspect.isclass(obj) and issubclass(obj, BaseException):
+                    raise _Untranslatable("exception constructor with keyword arguments: " + _pyir_src(n))
+                return "(.call %s %s)" % (lean_str(f.id + kwsfx), self.exprs(list(n.args) + kwvals))
             raise _Untranslatable("keyword arguments: " + _pyir_src(n))
         for a in n.args:
             if isinstance(a, ast.Starred):
@@ -1900,10 +2250,7 @@ class _PyIR:
             if inspect.isclass(obj):
                 if issubclass(obj, BaseException):
                     return "(.construct %s %s)" % (lean_str(f.id), self.exprs(n.args))
-                if obj in (int, str, bytes, bool):
-                    pass
-                else:
-                    raise _Untranslatable("constructor of a non-exception class: " + f.id)
+                # any other class: an external (pure) constructor, meaning given by the interpreter's Env
             # a module-level function (or int/str/bytes): external, pure, meaning given by the interpreter's Env
             return "(.call %s %s)" % (lean_str(f.id), self.exprs(n.args))
         if isinstance(f, ast.Attribute):
@@ -1916,6 +2263,17 @@ class _PyIR:
                 return "(.index (.var %s) (.int %d))" % (lean_str(f.value.id), n.args[0].value)
             if f.attr == "items" and not n.args:
                 return "(.items %s)" % self.expr(f.value)
+            # <module>.func(args) / <module>.ExceptionClass(args)
+            if isinstance(f.value, ast.Name) and f.value.id not in self.locals and f.value.id != "self" \
+                    and inspect.ismodule(getattr(self.module, f.value.id, None)):
+                obj = getattr(getattr(self.module, f.value.id), f.attr, None)
+                if inspect.isclass(obj) and issubclass(obj, BaseException):
+                    return "(.construct %s %s)" % (lean_str(f.attr), self.exprs(n.args))
+                return "(.call %s %s)" % (lean_str(f.value.id + "." + f.attr), self.exprs(n.args))
+            # str methods on a local / an expression: external functions "str.<meth>"
+            if f.attr in _PYIR_STR_METHODS and not self.is_self_attr(f.value) \
+                    and not (isinstance(f.value, ast.Name) and f.value.id not in self.locals):
+                return "(.call %s %s)" % (lean_str("str." + f.attr), self.exprs([f.value] + list(n.args)))
             if f.attr == "get" and len(n.args) in (1, 2) and (
                     (isinstance(f.value, ast.Name) and f.value.id in self.locals) or self.is_self_attr(f.value)):
                 # `<dict>.get(k[, default])`: pure; its meaning is Env's "dict.get"
@@ -1930,6 +2288,11 @@ class _PyIR:
                 and n.func.value.attr in self.data_attrs and not n.keywords:
             return n.func.attr, n.func.value.attr, n.args
         return None
+
+    def collab_call(self, n):
+        """`self.<X>.<meth>(…)` on something that is not a container created by the constructor"""
+        return (isinstance(n, ast.Call) and isinstance(n.func, ast.Attribute) and self.is_self_attr(n.func.value)
+                and n.func.value.attr not in self.data_attrs and n.func.attr not in ("get", "items"))
 
     def pop_like(self, n, target):
         """`[target =] self.<a>.pop(k) | .pop(k, None) | .popleft()` as a statement, or None"""
@@ -1970,8 +2333,7 @@ class _PyIR:
 
     def call_stmt(self, n, target, out):
         """a call evaluated for its effect (`target` = local that receives the value, or None)"""
-        if n.keywords:
-            raise _Untranslatable("keyword arguments: " + _pyir_src(n))
+        kwsfx, kwvals = _pyir_kw(n)
         f = n.func
         pl = self.pop_like(n, target)
         if pl is not None:
@@ -1987,19 +2349,33 @@ class _PyIR:
                 out.append(".append %s %s" % (lean_str(a), self.expr(args[0])))
                 return
             raise _Untranslatable("container method: " + _pyir_src(n))
-        if isinstance(f, ast.Attribute) and self.is_self_attr(f.value) and target is None:
+        if isinstance(f, ast.Attribute) and self.is_self_attr(f.value):
             # self._X.meth(args): a collaborator
             pre = []
-            args = self.args_with_hoist(n.args, pre)
+            args = self.args_with_hoist(list(n.args) + kwvals, pre)
             if pre:
                 # CPython looks the collaborator up before it evaluates the (hoisted) argument
                 out.append(".assign \"$recv\" (.attr %s)" % lean_str(f.value.attr))
                 self.locals.add("$recv")
             out.extend(pre)
-            out.append(".emit %s %s %s" % (lean_str(f.value.attr), lean_str(f.attr), args))
+            if target is None:
+                out.append(".emit %s %s %s" % (lean_str(f.value.attr), lean_str(f.attr + kwsfx), args))
+            else:
+                out.append(".emitTo %s %s %s %s" % (lean_str(target), lean_str(f.value.attr), lean_str(f.attr + kwsfx), args))
             return
         if self.is_self_attr(f):
             kind = self.kinds.get(f.attr)
+            callee = getattr(self, "klass_funcs", {}).get(f.attr)
+            if kind == "plain" and callee is not None and (callee.args.kwarg or callee.args.vararg) and target is None:
+                # a sibling with *args/**kwargs cannot be interpreted: the call is recorded (the models have it as an item)
+                out.append(".emitG \"self\" %s %s" % (lean_str(f.attr + kwsfx), self.exprs(list(n.args) + kwvals)))
+                return
+            if kind is None and target is None:
+                # self.<attr>(…): a callable held in an attribute
+                out.append(".emit %s %s %s" % (lean_str(f.attr), lean_str("__call__" + kwsfx), self.exprs(list(n.args) + kwvals)))
+                return
+            if kwsfx:
+                raise _Untranslatable("keyword arguments: " + _pyir_src(n))
             if kind == "input" and target is None:
                 pre = []
                 args = self.args_with_hoist(n.args, pre)
@@ -2016,7 +2392,13 @@ class _PyIR:
             raise _Untranslatable("call of self.%s (%s)" % (f.attr, kind))
         if isinstance(f, ast.Attribute) and isinstance(f.value, ast.Name) and f.value.id == "log" \
                 and "log" not in self.locals and target is None:
-            out.append(".emitG \"log\" %s %s" % (lean_str(f.attr), self.exprs(n.args)))
+            out.append(".emitG \"log\" %s %s" % (lean_str(f.attr + kwsfx), self.exprs(list(n.args) + kwvals)))
+            return
+        if isinstance(f, ast.Name) and f.id not in self.locals and target is None \
+                and inspect.isfunction(getattr(self.module, f.id, None)):
+            # a module-level function called for its effect (it may raise): external, evaluated and dropped
+            self.locals.add("$_")
+            out.append(".assign \"$_\" %s" % self.call_expr(n))
             return
         raise _Untranslatable("call statement: " + _pyir_src(n))
 
@@ -2034,7 +2416,7 @@ class _PyIR:
             return all(self.assert_msg_ok(e) for e in m.elts)
         if isinstance(m, ast.Call) and isinstance(m.func, ast.Name) and m.func.id == "type" and len(m.args) == 1:
             return self.assert_msg_ok(m.args[0])
-        return isinstance(m, ast.Constant) or (isinstance(m, ast.Name) and m.id in self.params)
+        return isinstance(m, ast.Constant) or (isinstance(m, ast.Name) and m.id in self.locals)
 
     def mutated_attrs(self, stmts, seen=()):
         """data attributes that a block may change (directly, or through plain sibling methods)"""
@@ -2073,11 +2455,18 @@ class _PyIR:
                 raise _Untranslatable("chained assignment")
             t = s.targets[0]
             if self.is_self_attr(t):
+                if self.collab_call(s.value):
+                    tmp = "$%d" % self.ntemp
+                    self.ntemp += 1
+                    self.locals.add(tmp)
+                    self.call_stmt(s.value, tmp, out)
+                    out.append(".setAttr %s (.var %s)" % (lean_str(t.attr), lean_str(tmp)))
+                    return
                 out.append(".setAttr %s %s" % (lean_str(t.attr), self.expr(s.value)))
                 return
             if isinstance(t, ast.Name):
                 v = s.value
-                if isinstance(v, ast.Call) and (self.data_call(v) is not None
+                if isinstance(v, ast.Call) and (self.data_call(v) is not None or self.collab_call(v)
                                                 or (self.is_self_attr(v.func) and self.kinds.get(v.func.attr) == "plain")):
                     self.call_stmt(v, t.id, out)
                     return
@@ -2142,16 +2531,33 @@ class _PyIR:
                 raise _Untranslatable("loop body mutates the iterated attribute self.%s" % base.attr)
             out.append(".forIn %s %s %s" % (pat, self.expr(it), self.block(s.body)))
             return
+        if isinstance(s, ast.With):
+            if len(s.items) != 1 or s.items[0].optional_vars is not None or not self.collab_call(s.items[0].context_expr):
+                raise _Untranslatable("with statement other than `with self.<X>.<meth>(…):`")
+            # the recorded call, then the block (the context manager's __exit__ does not swallow exceptions)
+            self.call_stmt(s.items[0].context_expr, None, out)
+            for st in s.body:
+                self.stmt(st, out)
+            return
         if isinstance(s, ast.Try):
             if s.orelse or s.finalbody or len(s.handlers) != 1:
                 raise _Untranslatable("try with else/finally/several handlers")
             h = s.handlers[0]
+            if isinstance(h.type, ast.Tuple) and all(isinstance(e, ast.Name) for e in h.type.elts):
+                out.append(".tryExceptAny %s [%s] %s %s" % (self.block(s.body), ", ".join(lean_str(e.id) for e in h.type.elts),
+                                                          _lean_opt_str(h.name), self.block(h.body)))
+                return
             if not isinstance(h.type, ast.Name):
                 raise _Untranslatable("except clause: " + _pyir_src(h.type) if h.type else "bare except")
             out.append(".tryExcept %s %s %s %s" % (self.block(s.body), lean_str(h.type.id), _lean_opt_str(h.name),
                                                   self.block(h.body)))
             return
         if isinstance(s, ast.Return):
+            if s.value is not None and self.collab_call(s.value):
+                self.locals.add("$ret")
+                self.call_stmt(s.value, "$ret", out)
+                out.append(".ret (some (.var \"$ret\"))")
+                return
             out.append(".ret none" if s.value is None else ".ret (some %s)" % self.expr(s.value))
             return
         if isinstance(s, ast.Raise):
@@ -2163,6 +2569,11 @@ class _PyIR:
                 return
             if isinstance(e, ast.Name) and e.id not in self.locals:
                 out.append(".raise %s []" % lean_str(e.id))
+                return
+            if isinstance(e, ast.Call) and isinstance(e.func, ast.Attribute) and isinstance(e.func.value, ast.Name) \
+                    and e.func.value.id not in self.locals and not e.keywords \
+                    and inspect.ismodule(getattr(self.module, e.func.value.id, None)):
+                out.append(".raise %s %s" % (lean_str(e.func.attr), self.exprs(e.args)))
                 return
             raise _Untranslatable("raise of " + _pyir_src(e))
         if isinstance(s, ast.Pass):
@@ -2238,7 +2649,8 @@ def _pyir_class(module_name, cls_name, extra):
             fn = funcs[name]
             for n in ast.walk(fn):
                 if isinstance(n, ast.Call) and isinstance(n.func, ast.Attribute) and isinstance(n.func.value, ast.Name) \
-                        and n.func.value.id == "self" and n.func.attr in bad and kinds.get(n.func.attr) == "plain":
+                        and n.func.value.id == "self" and n.func.attr in bad and kinds.get(n.func.attr) == "plain" \
+                        and not (funcs[n.func.attr].args.kwarg or funcs[n.func.attr].args.vararg):
                     bad[name] = "calls untranslatable self.%s" % n.func.attr
                     del done[name]
                     changed = True
@@ -2293,6 +2705,547 @@ def extract_pyir(targets=None):
     L.append("end WV.Gen.PyIR")
     return "\n".join(L) + "\n", len(all_done), all_bad
 
+
+# ---------------------------------------------------------------------------
+# C14: which exceptions are caught around the statements that parse bytes a mailbox participant controls
+# (the models treat "the PAKE body / element is unusable" as ONE event that ends in `scared`, whatever the parser raised)
+
+CATCH_TARGETS = [
+    ("wormhole._key", "_SortedKey", "got_pake"),
+    ("wormhole._key", "_SortedKey", "compute_key"),
+    ("wormhole._receive", "Receive", "got_message"),
+    ("wormhole._rendezvous", "RendezvousConnector", "ws_message"),
+]
+
+
+def _catch_universe():
+    """the probe universe: every exception class of builtins below Exception, and the classes the libraries used on these
+    paths define (json, binascii, spake2, nacl) — name -> class"""
+    import builtins
+    import binascii as _ba
+    import json as _js
+    uni = {}
+
+    def add(c):
+        if isinstance(c, type) and issubclass(c, Exception):
+            uni[_catch_name(c)] = c
+    for v in vars(builtins).values():
+        add(v)
+    add(_js.JSONDecodeError)
+    add(_ba.Error)
+    add(_ba.Incomplete)
+    import spake2.spake2 as _sp
+    import spake2.ed25519_basic as _ed
+    import nacl.exceptions as _ne
+    for m in (_sp, _ed, _ne):
+        for v in vars(m).values():
+            if isinstance(v, type) and v.__module__ == m.__name__:
+                add(v)
+    return uni
+
+
+def _catch_name(c):
+    return c.__qualname__ if c.__module__ == "builtins" else "%s.%s" % (c.__module__, c.__qualname__)
+
+
+class _TryCalls(ast.NodeVisitor):
+    """call names in source order; nested function bodies and `assert` statements are skipped"""
+
+    def __init__(self):
+        self.calls = []
+
+    def visit_Call(self, node):
+        for a in node.args:
+            self.visit(a)
+        for k in node.keywords:
+            self.visit(k.value)
+        if isinstance(node.func, ast.Attribute):
+            self.visit(node.func.value)
+        self.calls.append(_call_name(node))
+
+    def visit_Assert(self, node):
+        pass
+
+    def visit_Return(self, node):
+        if node.value is not None:
+            self.visit(node.value)
+        self.calls.append("return")
+
+    def visit_Raise(self, node):
+        if node.exc is not None:
+            self.visit(node.exc)
+        self.calls.append("raise")
+
+    def visit_FunctionDef(self, node):
+        pass
+
+    visit_Lambda = visit_FunctionDef
+
+
+_CATCH_NOISE = {"self._debug", "_timing.add", "self._timing.add", "log.err", "log.msg", "isinstance", "type"}
+
+
+def _calls_of(nodes):
+    v = _TryCalls()
+    for n in nodes:
+        v.visit(n)
+    return [c for c in v.calls if c not in _CATCH_NOISE]
+
+
+def extract_catches():
+    uni = _catch_universe()
+    data = {}
+    for module, cls, meth in CATCH_TARGETS:
+        mod = importlib.import_module(module)
+        f = vars(getattr(mod, cls))[meth]
+        f = getattr(f, "method", f)
+        f = inspect.unwrap(f)
+        fn = ast.parse(textwrap.dedent(inspect.getsource(f))).body[0]
+        tries = []
+        outside = []
+
+        def walk(nodes):
+            for n in nodes:
+                if isinstance(n, ast.Try):
+                    named = []
+                    for h in n.handlers:
+                        if h.type is None:
+                            classes = [BaseException]
+                        else:
+                            val = eval(compile(ast.Expression(h.type), "<except>", "eval"), dict(vars(mod)))
+                            classes = list(val) if isinstance(val, tuple) else [val]
+                        for c in classes:
+                            if not (isinstance(c, type) and issubclass(c, BaseException)):
+                                raise ValueError("%s.%s: except clause names a non-exception %r" % (cls, meth, c))
+                        named.append((classes, _calls_of(h.body)))
+                    # Python tries the handlers in order: a class belongs to the FIRST handler that matches it
+                    for i, (classes, hcalls) in enumerate(named):
+                        earlier = [c for cl, _ in named[:i] for c in cl]
+                        covers = sorted(k for k, c in uni.items()
+                                        if issubclass(c, tuple(classes)) and not (earlier and issubclass(c, tuple(earlier))))
+                        tries.append(dict(body=_calls_of(n.body), caught=[_catch_name(c) for c in classes], covers=covers,
+                                          handler=hcalls, orelse=_calls_of(n.orelse), final=_calls_of(n.finalbody)))
+                elif isinstance(n, (ast.If, ast.For, ast.While)):
+                    outside.extend(_calls_of([n.test] if hasattr(n, "test") else [n.iter]))
+                    walk(n.body)
+                    walk(n.orelse)
+                elif isinstance(n, ast.With):
+                    outside.extend(_calls_of([it.context_expr for it in n.items]))
+                    walk(n.body)
+                else:
+                    outside.extend(_calls_of([n]))
+        walk(fn.body)
+        data["%s.%s" % (cls, meth)] = dict(tries=tries, outside=outside)
+    mro = {k: [_catch_name(b) for b in c.__mro__ if b not in (object, BaseException, c) and issubclass(b, Exception)]
+           for k, c in uni.items()}
+    return data, mro
+
+
+def lean_catches(data, mro):
+    ls = lambda xs: "[" + ", ".join(lean_str(x) for x in xs) + "]"
+    L = ["namespace WV.Gen.Catches",
+         "/-- one handler of a `try` statement: the calls inside the `try` body, the classes the handler names (resolved in the",
+         "    module's namespace: aliases and re-exports are seen through), the classes of `classes` it actually catches (being a",
+         "    subclass of a named class and of no earlier handler's), the calls in the handler (`return`/`raise` are listed),",
+         "    the calls in `else:` and `finally:` -/",
+         "structure Handler where",
+         "  body : List String",
+         "  caught : List String",
+         "  covers : List String",
+         "  handler : List String",
+         "  orelse : List String := []",
+         "  final : List String := []",
+         "  deriving DecidableEq, Repr",
+         "/-- the handlers of each function, in source order (outermost first) -/",
+         "def handlers : String → List Handler"]
+    for k in sorted(data):
+        hs = ",\n     ".join("{ body := %s, caught := %s,\n       covers := %s,\n       handler := %s, orelse := %s, final := %s }"
+                             % (ls(t["body"]), ls(t["caught"]), ls(t["covers"]), ls(t["handler"]), ls(t["orelse"]), ls(t["final"]))
+                             for t in data[k]["tries"])
+        L.append("  | %s =>\n    [%s]" % (lean_str(k), hs))
+    L.append("  | _ => []")
+    L.append("/-- the calls of each function that are outside every `try` (assert statements are not listed) -/")
+    L.append("def outside : String → List String")
+    for k in sorted(data):
+        L.append("  | %s => %s" % (lean_str(k), ls(data[k]["outside"])))
+    L.append("  | _ => []")
+    L.append("/-- the probe universe: every exception class of `builtins` below `Exception`, and those of json, binascii, spake2")
+    L.append("    and nacl, each with its proper base classes below `Exception` (method resolution order) -/")
+    L.append("def classes : List (String × List String) := [")
+    L.append(",\n".join("  (%s, %s)" % (lean_str(k), ls(mro[k])) for k in sorted(mro)) + "]")
+    L.append("end WV.Gen.Catches")
+    return "\n".join(L) + "\n"
+
+
+# [dil] begin ---------------------------------------------------------------
+# PyIR for the Dilation data path (Outbound / Inbound / PullToPush): a second generated module, WV/Gen/PyIRDil.lean,
+# so that the pins of the first one (`untranslatable`, `translated`) do not move.  `_PyIRDil` only ADDS cases to
+# `_PyIR` (every override falls back to the base class); the classes are not Automat machines, every method is "plain".
+
+PYIR_DIL_TARGETS = [
+    ("wormhole._dilation.outbound", "Outbound",
+     ["build_record", "queue_and_send_record", "send_if_connected", "use_connection", "stop_using_connection",
+      "handle_ack", "pauseProducing", "resumeProducing", "_get_next_unpaused_producer", "stopProducing",
+      "_check_invariants", "subchannel_registerProducer", "subchannel_unregisterProducer", "subchannel_closed"]),
+    ("wormhole._dilation.inbound", "Inbound",
+     ["is_record_old", "update_ack_watermark", "handle_open", "handle_data", "handle_close", "use_connection",
+      "stop_using_connection", "subchannel_local_open", "subchannel_closed", "subchannel_pauseProducing",
+      "subchannel_resumeProducing", "subchannel_stopProducing"]),
+    ("wormhole._dilation.outbound", "PullToPush",
+     ["startStreaming", "stopStreaming", "pauseProducing", "resumeProducing", "stopProducing"]),
+]
+_PYIR_DIL_RECORD_MODULE = "wormhole._dilation.connection"
+
+
+def _pyir_dil_records():
+    """the namedtuple record classes of connection.py: [(class name, fields)]"""
+    conn = importlib.import_module(_PYIR_DIL_RECORD_MODULE)
+    out = []
+    for k, v in sorted(vars(conn).items()):
+        if inspect.isclass(v) and issubclass(v, tuple) and hasattr(v, "_fields"):
+            out.append((k, list(v._fields)))
+    return out
+
+
+def _pyir_dil_field_index(name):
+    idx = {f.index(name) for _, f in _pyir_dil_records() if name in f}
+    if len(idx) != 1:
+        raise _Untranslatable("attribute .%s of a value: not a field with one position in the record classes" % name)
+    return idx.pop()
+
+
+class _PyIRDil(_PyIR):
+    def __init__(self, module, klass, kinds, data_attrs, fn, attr_kinds):
+        self.module = module
+        self.klass = klass
+        self.kinds = kinds
+        self.data_attrs = data_attrs
+        self.attr_kinds = attr_kinds      # data attribute -> "set" | "dict" | "list" (deque, list)
+        self.fn = fn
+        a = fn.args
+        if a.kwarg or a.kwonlyargs or a.defaults or a.kw_defaults or a.posonlyargs:
+            raise _Untranslatable("parameter list with defaults/**kwargs")
+        names = [x.arg for x in a.args]
+        if not names or names[0] != "self":
+            raise _Untranslatable("not an instance method")
+        # `*args` is an ordinary last parameter that holds the tuple of the extra positional arguments
+        self.params = names[1:] + ([a.vararg.arg] if a.vararg else [])
+        self.locals = set(self.params)
+        for n in ast.walk(fn):
+            if isinstance(n, ast.Name) and isinstance(n.ctx, (ast.Store, ast.Del)):
+                self.locals.add(n.id)
+            if isinstance(n, (ast.Lambda, ast.AsyncFunctionDef)):
+                raise _Untranslatable("nested function")
+            if isinstance(n, ast.FunctionDef) and n is not fn:
+                self.closure_of(n)          # raises unless it is a plain forwarding closure
+                self.locals.add(n.name)
+            if isinstance(n, (ast.Yield, ast.YieldFrom)):
+                raise _Untranslatable("generator")
+            if isinstance(n, ast.ExceptHandler) and n.name:
+                self.locals.add(n.name)
+        self.match_vars = set()
+        self.ntemp = 0
+        self.sibling_calls = set()
+        self.assigned = set(self.params)   # locals assigned by a top-level statement seen so far
+
+    def closure_of(self, n):
+        """`def f(): self.<plain sibling>(<locals>…)` -> (method, arg nodes)"""
+        a = n.args
+        if a.args or a.vararg or a.kwarg or a.kwonlyargs or len(n.body) != 1:
+            raise _Untranslatable("nested function")
+        b = n.body[0]
+        if isinstance(b, ast.Expr) and isinstance(b.value, ast.Call) and self.is_self_attr(b.value.func) \
+                and not b.value.keywords and all(isinstance(x, ast.Name) for x in b.value.args) \
+                and self.kinds.get(b.value.func.attr) == "plain":
+            return b.value.func.attr, list(b.value.args)
+        raise _Untranslatable("nested function")
+
+    def is_set_valued(self, n):
+        if isinstance(n, ast.Call) and isinstance(n.func, ast.Name) and n.func.id == "set" and len(n.args) == 1:
+            return n.args[0]
+        if isinstance(n, ast.Call) and isinstance(n.func, ast.Attribute) and n.func.attr == "union" and len(n.args) == 1:
+            return n
+        if self.is_self_attr(n) and self.attr_kinds.get(n.attr) == "set":
+            return n
+        return None
+
+    def expr(self, n):
+        if isinstance(n, ast.Name) and n.id == "self" and "self" not in self.locals:
+            return "(.construct \"self\" [])"
+        if isinstance(n, ast.Compare) and len(n.ops) == 1:
+            op, a, b = n.ops[0], n.left, n.comparators[0]
+            if isinstance(op, ast.LtE):
+                return "(.le %s %s)" % (self.expr(a), self.expr(b))
+            if isinstance(op, ast.Eq):
+                sa, sb = self.is_set_valued(a), self.is_set_valued(b)
+                if sa is not None and sb is not None:
+                    return "(.setEq %s %s)" % (self.expr(sa), self.expr(sb))
+            if isinstance(op, ast.Is) and not (isinstance(b, ast.Constant) and b.value is None):
+                return "(.call \"is\" %s)" % self.exprs([a, b])
+        if isinstance(n, ast.BinOp) and isinstance(n.op, ast.Mod) and isinstance(n.left, ast.Constant) \
+                and isinstance(n.left.value, str) and n.left.value != "%d":
+            # a message: `"…%s…" % (a, b)`; its text is given by the interpreter's Env
+            args = list(n.right.elts) if isinstance(n.right, ast.Tuple) else [n.right]
+            return "(.call \"str%%\" %s)" % self.exprs([n.left] + args)
+        if isinstance(n, ast.Attribute) and not self.is_self_attr(n) \
+                and not (isinstance(n.value, ast.Name) and n.value.id not in self.locals):
+            return "(.fieldAt %s %s %d)" % (self.expr(n.value), lean_str(n.attr), _pyir_dil_field_index(n.attr))
+        return super().expr(n)
+
+    def project_class(self, t):
+        if isinstance(t, ast.Name) and t.id not in self.locals and t.id not in _PYIR_ISINSTANCE \
+                and inspect.isclass(getattr(self.module, t.id, None)):
+            return t.id
+        return None
+
+    def call_expr(self, n):
+        f = n.func
+        if not n.keywords and isinstance(f, ast.Name) and f.id not in self.locals:
+            plain = not any(isinstance(a, ast.Starred) for a in n.args)
+            if f.id == "max" and len(n.args) == 2 and plain:
+                return "(.max2 %s %s)" % (self.expr(n.args[0]), self.expr(n.args[1]))
+            if f.id == "bool" and len(n.args) == 1 and plain:
+                return "(.truthOf %s)" % self.expr(n.args[0])
+            if f.id == "hasattr" and len(n.args) == 2 and plain and isinstance(n.args[1], ast.Constant):
+                return "(.call \"hasattr\" %s)" % self.exprs(n.args)
+            if f.id == "isinstance" and len(n.args) == 2 and plain:
+                t = n.args[1]
+                ts = t.elts if isinstance(t, ast.Tuple) else [t]
+                cs = [self.project_class(x) for x in ts]
+                if cs and all(c is not None for c in cs):
+                    return "(.isinstanceAny %s [%s])" % (self.expr(n.args[0]), ", ".join(lean_str(c) for c in cs))
+            obj = getattr(self.module, f.id, None)
+            if plain and inspect.isclass(obj) and not issubclass(obj, BaseException) and obj not in (int, str, bytes, bool):
+                # a project class: an external constructor, the object it returns is given by the interpreter's Env
+                return "(.call %s %s)" % (lean_str(f.id), self.exprs(n.args))
+        if not n.keywords and isinstance(f, ast.Name) and f.id in self.params:
+            # a parameter that holds a record class: `record_type(seqnum, *args)`
+            pos = [a for a in n.args if not isinstance(a, ast.Starred)]
+            star = [a for a in n.args if isinstance(a, ast.Starred)]
+            if len(star) <= 1 and (not star or n.args[-1] is star[0]):
+                return "(.applyCls (.var %s) %s %s)" % (lean_str(f.id), self.exprs(pos),
+                                                        "(some %s)" % self.expr(star[0].value) if star else "none")
+        if not n.keywords and isinstance(f, ast.Attribute) and not any(isinstance(a, ast.Starred) for a in n.args):
+            if f.attr == "isdisjoint" and len(n.args) == 1:
+                return "(.isDisjoint %s %s)" % (self.expr(f.value), self.expr(n.args[0]))
+            if f.attr == "union" and len(n.args) == 1:
+                return "(.setUnion %s %s)" % (self.expr(f.value), self.expr(n.args[0]))
+            if f.attr == "get" and len(n.args) in (1, 2) and self.is_self_attr(f.value) \
+                    and self.attr_kinds.get(f.value.attr) == "dict":
+                return "(.getD %s %s %s)" % (self.expr(f.value), self.expr(n.args[0]),
+                                             self.expr(n.args[1]) if len(n.args) == 2 else ".none")
+            if f.attr == "providedBy" and isinstance(f.value, ast.Name) and f.value.id not in self.locals:
+                return "(.call %s %s)" % (lean_str(f.value.id + ".providedBy"), self.exprs(n.args))
+        return super().call_expr(n)
+
+    def recv_chain(self, f):
+        """`self.<obj>.<a>.<b>` / `<local>.<a>.<b>` as the callee of a call -> (kind, base, dotted method) or None"""
+        path = [f.attr]
+        v = f.value
+        while isinstance(v, ast.Attribute) and not self.is_self_attr(v):
+            path.append(v.attr)
+            v = v.value
+        meth = ".".join(reversed(path))
+        if self.is_self_attr(v):
+            return "attr", v.attr, meth
+        if isinstance(v, ast.Name) and v.id in self.locals:
+            return "local", v.id, meth
+        return None
+
+    def call_stmt(self, n, target, out):
+        f = n.func
+        dc = self.data_call(n)
+        if dc is not None and target is not None and dc[0] == "get" and self.attr_kinds.get(dc[1]) == "dict":
+            out.append(".assign %s %s" % (lean_str(target), self.call_expr(n)))      # `x = self.<dict>.get(k[, d])` is pure
+            return
+        if dc is not None and target is None:
+            kind, a, args = dc
+            ak = self.attr_kinds.get(a)
+            rot = kind == "rotate" and len(args) == 1 and isinstance(args[0], ast.UnaryOp) \
+                and isinstance(args[0].op, ast.USub) and isinstance(args[0].operand, ast.Constant) \
+                and args[0].operand.value == 1
+            if rot and ak == "list":
+                out.append(".rotateLeft %s" % lean_str(a)); return
+            one = self.expr(args[0]) if len(args) == 1 and not rot else None
+            if kind == "extend" and one and ak == "list":
+                out.append(".extend %s %s" % (lean_str(a), one)); return
+            if kind == "clear" and not args:
+                out.append(".clearAny %s" % lean_str(a)); return
+            if kind == "discard" and one and ak == "set":
+                out.append(".setDiscard %s %s" % (lean_str(a), one)); return
+            if kind == "remove" and one and ak == "set":
+                out.append(".setRemove %s %s" % (lean_str(a), one)); return
+            if kind == "remove" and one and ak == "list":
+                out.append(".listRemove %s %s" % (lean_str(a), one)); return
+        if dc is None and target is None and not n.keywords and isinstance(f, ast.Attribute) \
+                and not any(isinstance(a, ast.Starred) for a in n.args):
+            rc = self.recv_chain(f)
+            if rc is not None and not (rc[0] == "local" and rc[1] == "log"):
+                kind, base, meth = rc
+                pre = []
+                args = self.args_with_hoist(n.args, pre)
+                if pre:
+                    raise _Untranslatable("effectful argument of a call that may re-enter: " + _pyir_src(n))
+                if kind == "attr":
+                    out.append(".emitA %s %s %s" % (lean_str(base), lean_str(meth), args))
+                else:
+                    out.append(".emitV (.var %s) %s %s" % (lean_str(base), lean_str(meth), args))
+                return
+        super().call_stmt(n, target, out)
+
+    def assert_msg_ok(self, m):
+        if isinstance(m, ast.Name) and m.id in self.assigned:
+            return True
+        return super().assert_msg_ok(m)
+
+    @staticmethod
+    def has_break(stmts):
+        """does the block contain a break/continue that belongs to the enclosing loop?"""
+        for s in stmts:
+            if isinstance(s, (ast.Break, ast.Continue)):
+                return True
+            if isinstance(s, (ast.For, ast.While)):
+                if _PyIRDil.has_break(s.orelse):
+                    return True
+                continue
+            for fld in ("body", "orelse", "finalbody"):
+                if _PyIRDil.has_break(getattr(s, fld, []) or []):
+                    return True
+            for h in getattr(s, "handlers", []) or []:
+                if _PyIRDil.has_break(h.body):
+                    return True
+        return False
+
+    def stmt(self, s, out):
+        if isinstance(s, ast.Break):
+            out.append(".brk"); return
+        if isinstance(s, ast.Continue):
+            out.append(".cont"); return
+        if isinstance(s, ast.FunctionDef):
+            meth, args = self.closure_of(s)
+            out.append(".assign %s (.call \"closure\" %s)" % (lean_str(s.name), self.exprs([ast.Constant(meth)] + args)))
+            return
+        if isinstance(s, ast.Delete) and len(s.targets) == 1 and isinstance(s.targets[0], ast.Subscript) \
+                and self.is_self_attr(s.targets[0].value) and not isinstance(s.targets[0].slice, ast.Slice):
+            t = s.targets[0]
+            out.append(".delItem %s %s" % (lean_str(t.value.attr), self.expr(t.slice)))
+            return
+        if isinstance(s, (ast.While, ast.For)) and not s.orelse and self.has_break(s.body):
+            tmp = []
+            super().stmt(s, tmp)
+            assert len(tmp) == 1 and (tmp[0].startswith(".while ") or tmp[0].startswith(".forIn "))
+            out.append(tmp[0].replace(".while ", ".whileBC ", 1) if tmp[0].startswith(".while ")
+                       else tmp[0].replace(".forIn ", ".forInBC ", 1))
+            return
+        super().stmt(s, out)
+        if s in self.fn.body and isinstance(s, ast.Assign) and len(s.targets) == 1 and isinstance(s.targets[0], ast.Name):
+            self.assigned.add(s.targets[0].id)
+
+
+def _pyir_dil_class(module_name, cls_name, methods):
+    mod = importlib.import_module(module_name)
+    klass = getattr(mod, cls_name)
+    kinds, funcs = {}, {}
+    for name, member in vars(klass).items():
+        if not inspect.isfunction(member):
+            continue
+        kinds[name] = "plain"
+        try:
+            funcs[name] = ast.parse(textwrap.dedent(inspect.getsource(member))).body[0]
+        except Exception:  # pragma: no cover
+            pass
+    attr_kinds = {}
+    for init in _PYIR_INIT_METHODS:
+        fn = funcs.get(init)
+        if fn is None:
+            continue
+        for n in ast.walk(fn):
+            if isinstance(n, ast.Assign) and len(n.targets) == 1:
+                t, v = n.targets[0], n.value
+                if isinstance(t, ast.Attribute) and isinstance(t.value, ast.Name) and t.value.id == "self":
+                    if isinstance(v, ast.Dict) and not v.keys:
+                        attr_kinds[t.attr] = "dict"
+                    elif isinstance(v, ast.List) and not v.elts:
+                        attr_kinds[t.attr] = "list"
+                    elif isinstance(v, ast.Call) and isinstance(v.func, ast.Name) and not v.args \
+                            and v.func.id in ("set", "dict", "list", "deque"):
+                        attr_kinds[t.attr] = {"set": "set", "dict": "dict"}.get(v.func.id, "list")
+    data_attrs = set(attr_kinds)
+    todo = list(methods)
+    done, bad = {}, {}
+    while todo:
+        name = todo.pop(0)
+        if name in done or name in bad:
+            continue
+        fn = funcs.get(name)
+        if fn is None:
+            bad[name] = "source not available"
+            continue
+        try:
+            tr = _PyIRDil(mod, klass, kinds, data_attrs, fn, attr_kinds)
+            tr.klass_funcs = funcs
+            body = tr.block(fn.body)
+            done[name] = (tr.params, body)
+            for callee in sorted(tr.sibling_calls):
+                if callee not in done and callee not in bad:
+                    todo.append(callee)
+        except _Untranslatable as e:
+            bad[name] = str(e)
+    changed = True
+    while changed:
+        changed = False
+        for name in sorted(done):
+            for n in ast.walk(funcs[name]):
+                if isinstance(n, ast.Call) and isinstance(n.func, ast.Attribute) and isinstance(n.func.value, ast.Name) \
+                        and n.func.value.id == "self" and n.func.attr in bad:
+                    bad[name] = "calls untranslatable self.%s" % n.func.attr
+                    del done[name]
+                    changed = True
+                    break
+            if changed:
+                break
+    return done, bad
+
+
+def extract_pyir_dil():
+    """Lean data: the bodies of the Dilation data-path methods in the IR of WV/Model/PyIR.lean"""
+    L = ["import WV.Model.PyIR", "namespace WV.Gen.PyIRDil", "open WV.PyIR", ""]
+    all_done, all_bad, classes = [], [], []
+    for module, cls, methods in PYIR_DIL_TARGETS:
+        try:
+            done, bad = _pyir_dil_class(module, cls, methods)
+        except Exception as e:
+            all_bad.append((cls, "class not translatable: %s" % type(e).__name__))
+            continue
+        cid = cls.lstrip("_")
+        classes.append((cls, cid, done))
+        for name in sorted(done):
+            params, body = done[name]
+            L.append("def %s : List String × List Stmt :=" % ident("m_%s_%s" % (cid, name)))
+            L.append("  ([%s]," % ", ".join(lean_str(p) for p in params))
+            L.append("   %s)" % body)
+            all_done.append((cls, cid, name))
+        for name in sorted(bad):
+            all_bad.append(("%s.%s" % (cls, name), bad[name]))
+    L.append("")
+    for cls, cid, done in classes:
+        L.append("def %s : MethodTable" % ident("tbl_" + cid))
+        for name in sorted(done):
+            L.append("  | %s => some %s" % (lean_str(name), ident("m_%s_%s" % (cid, name))))
+        L.append("  | _ => none")
+    L.append("")
+    L.append("def translated : List String := [%s]" % ", ".join(lean_str("%s.%s" % (c, n)) for c, _, n in all_done))
+    L.append("")
+    L.append("/-- methods with a construct outside the subset, and the construct -/")
+    L.append("def untranslatable : List (String × String) := [%s]" % ", ".join(
+        "(%s, %s)" % (lean_str(k), lean_str(v)) for k, v in all_bad))
+    L.append("")
+    L.append("/-- the namedtuple record classes of connection.py and their fields (what `fieldAt` positions refer to) -/")
+    L.append("def recordFields : List (String × List String) := [%s]" % ", ".join(
+        "(%s, [%s])" % (lean_str(k), ", ".join(lean_str(x) for x in f)) for k, f in _pyir_dil_records()))
+    L.append("end WV.Gen.PyIRDil")
+    return "\n".join(L) + "\n", len(all_done), all_bad
+# [dil] end -----------------------------------------------------------------
 
 BASELINE = os.path.join(HERE, "gen_baseline")
 
@@ -2358,11 +3311,21 @@ def main():
     section("Transit", lambda: hdr + extract_transit())
     section("C02", lambda: hdr + extract_c02())
 
+    section("Catches", lambda: hdr + lean_catches(*extract_catches()))
+
     def pyir():
         text, n, bad = extract_pyir()
         state["pyir_n"], state["pyir_bad"] = n, bad
         return hdr + text
     section("PyIR", pyir)
+
+    # [dil] begin
+    def pyir_dil():
+        text, n, bad = extract_pyir_dil()
+        state["pyir_dil_n"], state["pyir_dil_bad"] = n, bad
+        return hdr + text
+    section("PyIRDil", pyir_dil)
+    # [dil] end
     L = [hdr + "namespace WV.Gen.Failed",
          "/-- generated modules the translator could NOT regenerate from the working tree in this run (they still hold their",
          "    previous / baseline text), with the reason -/",
@@ -2378,6 +3341,8 @@ def main():
         "changed": changed,
         "pyir_methods": state.get("pyir_n", 0),
         "pyir_untranslatable": [k for k, _ in state.get("pyir_bad", [])],
+        "pyir_dil_methods": state.get("pyir_dil_n", 0),                                   # [dil]
+        "pyir_dil_untranslatable": [k for k, _ in state.get("pyir_dil_bad", [])],        # [dil]
         "failed_sections": [[n, w] for n, w, _ in failed],
     }
     write_if_changed(os.path.join(GEN, "summary.json"), json.dumps(summary, indent=1, sort_keys=True) + "\n")
